@@ -71,6 +71,9 @@ func decElem(w *core.W, c *NumFnCase, src string, data map[string]interface{}) (
 	if data == nil && !c.Str && core.Hash64(src)%3 == 0 && !throughLocals(w, c, src, d) {
 		return ref.Dec{}, nil, false
 	}
+	if !c.Str && core.Hash64(src)%150 == 1 && !substitutionCheck(w, "numeric-builtins", "C18", c, src, d, data) {
+		return ref.Dec{}, nil, false
+	}
 	return obs.DecOf(d), d, true
 }
 
